@@ -240,7 +240,8 @@ def main():
     # concrete companions (sampling, not solver verdicts): the kernel decided above is what the real reader composes,
     # including the pandas assembly (padding, surplus columns, exact float conversion) and the IGNORE/ACCEPT filters
     run_probes(run, [(Ob('assembly', 'C13_e2e.py', 'assembly_all', env={}), 'assembly_all()'),
-                     (Ob('filters', 'C13_e2e.py', 'filters_all', env={}), 'filters_all()')])
+                     (Ob('filters', 'C13_e2e.py', 'filters_all', env={}), 'filters_all()'),
+                     (Ob('write_read_cycle', 'C13_e2e.py', 'write_read_cycle', env={}), 'write_read_cycle()')])
     for o in obs[:4] + [o for o in obs if o.name.startswith(('rowsplit[len=4', 'prefilter_comments', 'columns'))][:6]:
         run.sample(dict(obligation=o.name, harness=o.file, func=o.func, env=o.env))
     run.finish(coverage=dict(
